@@ -328,7 +328,9 @@ def derive_events_real(seg, kind):
             cur = None
         elif x[0] == "actend" and cur is not None:
             if x[2] == "ScrapliTimeout":
-                evs[cur][0] = "s"
+                # a ScrapliTimeout with no closing handler behind it (a handler's transport.close() is the "stallfire" above):
+                # Settings.NO_TERMINATE_ON_TIMEOUT, or the transport read's own timeout (telnet socket timeout) -- nothing was closed
+                evs[cur][0] = "k"
             elif x[2] is not None:
                 evs[cur][0] = "d"
             cur = None
@@ -378,7 +380,25 @@ def quick_cases():
     # real sockets whose peer is already gone when close() runs: refused connect inside with, reset mid-session, reset during login
     dead_peer = [tel("telnet", "generic", "path", "W.x!c0 W.x"), tel("telnet", "cisco_iosxe", "none", "O X!r1 C O X C"),
                  tel("telnet", "generic", "true", "W.x!r2 W", login="refuse", bypass=False), tel("asynctelnet", "generic", "path", "W.x!c0 W.x!r1 W.x")]
-    return dead_peer + [{**mk("cisco_iosxe", "path", False, "W.x W"), "login": "refuse"},     # ssh never lets us in: open() fails with the child + pty up
+    # with-bodies ending in a ScrapliTimeout that closed nothing (telnet socket-read timeout: silent device, timeout_socket still armed
+    # below the option limit; NO_TERMINATE_ON_TIMEOUT with the real timers), in user exceptions / a non-Exception / a cancellation
+    endings = ending_cases(mk, tel)
+    return dead_peer + endings + _rest_quick(mk)
+
+
+def ending_cases(mk=None, tel=None):
+    mk = mk or (lambda plat, sink, bypass, sh: dict(stack="sync", platform=plat, kind="system", sink=sink, on_open="default", on_close="default",
+                                                    timeout_ops=15, bypass=bypass, ops=H(sh)))
+    tel = tel or (lambda kind, plat, sink, sh, **kw: dict(stack="sync" if kind == "telnet" else "async", platform=plat, kind=kind, sink=sink,
+                                                          on_open="default", on_close="default", timeout_ops=8, neg=3, ops=H(sh), **kw))
+    return    [tel("telnet", "generic", "path", "W.x!s1 W.x", timeout_socket=0.4),
+               {**tel("telnet", "generic", "true", "W.x!s1 W.x"), "no_terminate": True, "timeout_ops": 0.8, "timeout_socket": 1.5},
+               {**tel("asynctelnet", "generic", "path", "W.x!s1 W.xZ"), "no_terminate": True, "timeout_ops": 0.8, "timeout_socket": 1.5},
+               mk("generic", "path", True, "W.xT W.K W.x"), tel("asynctelnet", "arista_eos", "path", "W.xZ W.T W.x")]
+
+
+def _rest_quick(mk):
+    return [{**mk("cisco_iosxe", "path", False, "W.x W"), "login": "refuse"},     # ssh never lets us in: open() fails with the child + pty up
             mk("generic", "path", False, "O X!d1 C O X C"), mk("cisco_iosxe", "true", True, "W.x!d1 W.x"),
             mk("generic", "none", True, "O X!h1 C"), mk("arista_eos", "bytesio", False, "O X C C")]
 
@@ -431,6 +451,13 @@ def real_cases():
         stack = "sync" if kind in SYNC_KINDS else "async"
         cases.append(dict(stack=stack, platform="generic", kind=kind, sink="path", on_open="default", on_close="default", auth="bad", ops=H("W.x")))
         cases.append(dict(stack=stack, platform="cisco_iosxe", kind=kind, sink="none", on_open="default", on_close="default", auth="bad", ops=H("W O C")))
+    cases += ending_cases()
+    for kind in ("paramiko", "asyncssh"):
+        stack = "sync" if kind in SYNC_KINDS else "async"
+        cases.append(dict(stack=stack, platform="generic", kind=kind, sink="path", on_open="default", on_close="default", timeout_ops=8,
+                          ops=H("W.xT W.xK W.x" if stack == "sync" else "W.xT W.xZ W.x")))
+        cases.append(dict(stack=stack, platform="cisco_iosxe", kind=kind, sink="path", on_open="default", on_close="default", timeout_ops=1.0,
+                          no_terminate=True, ops=H("W.x!s1 W.x")))
     return cases
 
 
